@@ -73,7 +73,7 @@ CLAIMED = {
             "jax arrays are immutable and may be shared; jaxnodes/jaxedges caches excluded.",
             "DESIGN.md section 4 C18"),
     "C19": ("invariant at a hook (table invariants R6 after every accepted public mutator) + offline reference simulation R3 of the final tables; exhaustive bounded histories + random histories",
-            "Exploration with an exhaustive sub-enumeration: all histories of depth 2 (quick) / depth 3 on the cell and depth 2 on the network (thorough) over 23 concrete operations on two fixed irregular modules; each operation may only change the parts of the module it is about (frame condition), an undo family over channel pairs sharing columns, and random histories of length 4-25; after every accepted operation the tables must satisfy I1-I7, insert..delete_channel must restore the earlier tables (I8), refused operations must have no side effects, and integrate must equal the independent reference simulator rebuilt from the tables alone (1e-6).",
+            "Exploration with an exhaustive sub-enumeration: all histories of depth 2 (quick) / depth 3 on the cell and depth 2 on the network (thorough) over 23 concrete operations on two fixed irregular modules; each operation may only change the parts of the module it is about (frame condition), an undo family over channel pairs sharing columns, a simulate-then-edit family (a run in the middle of the history must leave every table unchanged and must not influence the behaviour after later edits), and random histories of length 4-25; after every accepted operation the tables must satisfy I1-I7, insert..delete_channel must restore the earlier tables (I8), refused operations must have no side effects, and integrate must equal the independent reference simulator rebuilt from the tables alone (1e-6).",
             "R3 encodes jaxley's documented operator splitting; trainable values are scattered into the reference tables by their public index arrays.",
             "DESIGN.md section 4 C19"),
     "C14": ("fixed-point and reference-model monitors on .nodes after init_states()",
